@@ -69,6 +69,7 @@ fn main() {
     for (ct, tl) in [("Rgb565", (2, 1)), ("BinaryColor", (-6, -4))] {
         let mut all = catalog::prims(ct, th, &mut rng, tl);
         all.extend(catalog::images(ct, th, &mut rng, tl));
+        catalog::add_dotted(&mut all, if th { 2 } else { 5 });
         for d in all {
             run_case(&mut rec, &json!({"d": d, "ct": ct}));
         }
